@@ -183,7 +183,8 @@ def _control_variates(res, rng):
         ncv = rng.choice([1, 2])
         prices = [rng.choice([1.0, 2.0, 4.5]), rng.choice([0.5, 1.0])][:ncv]
         spec["cv"] = {"ncv": ncv, "prices": prices}
-        cv = make_control_variates(funs[:ncv], prices)
+        cvn = [1.0, -0.5][:ncv]                     # second control held short: Sigma_X gets a negative entry
+        cv = make_control_variates(funs[:ncv], prices, notionals=cvn)
         obs = D.run_engine(spec, cv=cv)
         if obs["raised"]:
             res.broke("correspondence driver", f"Engine.price with control variates raised {obs['raised']}")
@@ -208,7 +209,7 @@ def _control_variates(res, rng):
                     want_adj = [Fraction(0)] * n
                 else:
                     y = [df * no * Fraction(r[side]) for r in raw]
-                    xs = [[df * Fraction(f(r[side])) for r in raw] for f in funs[:ncv]]
+                    xs = [[df * Fraction(nk) * Fraction(f(r[side])) for r in raw] for f, nk in zip(funs[:ncv], cvn)]
                     got_x = X[:, :, 0] if l == 0 else X[:, :, 0, side]
                     if any(Fraction(float(got_x[k, c])) != xs[c][k] for k in range(n) for c in range(ncv)):
                         res.violation("a stored control-variate row is not the control's payoff on the simulated sample",
